@@ -41,6 +41,17 @@ class ParseTableBase(Generic[StateT]):
         self.start_states = start_states
         self.end_states = end_states
 
+        # Collect the terminals from the rules. We can't always tell a terminal by its name:
+        # a terminal imported along with a rule is prefixed with the (lowercase) name of its grammar.
+        self.terminals = {'$END'}
+        for actions in states.values():
+            for action, arg in actions.values():
+                if action is Reduce:
+                    self.terminals.update(sym.name for sym in arg.expansion if sym.is_term)
+
+    def is_terminal(self, name: str) -> bool:
+        return name in self.terminals or name.isupper()
+
     def serialize(self, memo):
         tokens = Enumerator()
 
